@@ -3,6 +3,7 @@ package props
 
 import (
 	"github.com/GuanceCloud/platypus/internal/verifsim/c09"
+	"github.com/GuanceCloud/platypus/internal/verifsim/c10"
 	"github.com/GuanceCloud/platypus/internal/verifsim/c13"
 	"github.com/GuanceCloud/platypus/internal/verifsim/c14"
 	"github.com/GuanceCloud/platypus/internal/verifsim/core"
@@ -10,6 +11,7 @@ import (
 
 func init() {
 	core.Register(c09.Prop{})
+	core.Register(c10.Prop{})
 	core.Register(c13.Prop{})
 	core.Register(c14.Prop{})
 }
